@@ -34,7 +34,25 @@ def build(world):
     units += hc.build_for(world, PROP)
     units += [u for u in gu.model_units(world) if "Node.__init__" in u.name or "Child.__init__" in u.name]
     units += [u for u in gu.mk(persistence_c.units(world)) if "NodeSchema" in u.name]
+    # "every registry the library can build": the handlers that put nodes and children into the registry keep its keys inside what the
+    # schema accepts on load (node id 0..255 = WF's key clause): their wf/ exit obligations belong to this property too
+    have = {u.name for u in units}
+    from pyvc.runner import Unit
+    for name, q, ct, cls, case in hc.all_units(world):
+        if ("handle_i_id_request" in q or "handle_presentation.__wrapped__" in q) and name not in have:
+            units.append(Unit(name, q, ct, receiver=cls, case=case))
+            _BUILDERS.add(name)
     return units
+
+
+_BUILDERS = set()
+ALSO_PROPERTY = ("wf",)
+
+
+def owns(ob_):
+    if ob_["name"].split("/")[0] == "wf":
+        return ob_["name"].startswith("wf/dict[int,Node]") and ("handle_i_id_request" in ob_.get("unit", "") or "handle_presentation" in ob_.get("unit", ""))
+    return True
 
 
 def extra_checks(world):
@@ -52,10 +70,12 @@ def native_roundtrip(seed=0, n_hist=40):
     d = tempfile.mkdtemp(prefix="c13_")
     n = 0
     try:
-        for h in range(n_hist):
+        edge = [["255;255;0;0;17;1.4", "255;255;3;0;3;", "255;255;3;0;3;"], ["254;255;0;0;17;2.2", "255;255;3;0;3;"], ["7;255;0;0;0;2.2.0", "7;1;0;0;0;d"],
+                ["0;255;0;0;18;2.2", "255;255;3;0;3;", "1;255;0;0;17;", "1;255;3;0;11;", "253;255;0;0;17;x", "255;255;3;0;3;", "255;255;3;0;3;"]]
+        for h in range(n_hist + len(edge)):
             gw, tr = native.make_gateway("2.2", ())
-            for _ in range(rng.randint(1, 10)):
-                tr.reads.append(rng.choice(lines))
+            for line in (edge[h - n_hist] if h >= n_hist else [rng.choice(lines) for _ in range(rng.randint(1, 10))]):
+                tr.reads.append(line)
                 try:
                     native.run(gw.listen().__anext__())
                 except Exception:  # noqa: BLE001
